@@ -5,6 +5,8 @@ import world_deleg  # noqa: F401
 import world_storage  # noqa: F401
 import world_process  # noqa: F401
 import world_threads  # noqa: F401
+import world_builder  # noqa: F401
+import world_pgp  # noqa: F401
 
 REAL = ["conda_content_trust/*.py (working tree)", "pyca/cryptography + OpenSSL", "json, codecs, io.TextIOWrapper"]
 ASSUME_CRYPTO = ("ed25519 is unforgeable and a random corruption of a signature, key or header does not yield "
@@ -211,4 +213,39 @@ PLANS["C12"] = {
     "components": {"real": PROC_REAL + ["real threading.Thread objects; only the choice of who runs is simulated"],
                    "stub": ["baton scheduler", "SimStdout sink"] + ENV_STUB},
     "must_probe": {"all": ["thread_switches", "threads_1", "threads_4", "wrap_alias_checked"]},
+}
+
+
+PLANS["C16"] = {
+    "level": "exploration",
+    "stages": [{"world": "builder", "runs": {"quick": 2000, "thorough": 150000}},
+               {"world": "chain", "runs": {"quick": 600, "thorough": 50000}}],
+    "rule": ("builder world: 10-30 builder calls per run under a simulated clock (epoch parked on leap days, year ends, 2038, year 9997; "
+             "clock stepped by up to +-30 days between the two clock reads of one call in half of the calls; simulated local-time offset "
+             "so that a UTC/local mix-up shows), explicit and default timestamps, one argument corrupted in 25% of the calls (operator "
+             "error = plain input corruption), and chain-closure sequences v -> v+1 -> v+2 signed in OpenPGP mode and verified with "
+             "verify_root; chain world: every honest root is built by build_root_metadata inside key ceremonies and must be accepted by "
+             "clients at quiescence; non-trivial = a clock movement or argument corruption occurred and both outcomes were seen"),
+    "assumptions": [ASSUME_SAMPLE, "clock steps between the two reads bounded by 30 days; simulated time stays below year 9999 minus one year "
+                    "(the default expiry would overflow the calendar there, which is a property of the calendar, not of the builders)"],
+    "components": {"real": REAL, "stub": ["SimClock (datetime subclass installed as common.datetime)", "operator (harness)"] + CHAIN_STUB},
+    "must_probe": {"all": ["clock_moved_between_the_two_reads", "default_times_checked", "chain_closure_step"]},
+}
+
+
+PLANS["C10"] = {
+    "level": "exploration",
+    "stages": [{"world": "pgp", "runs": {"quick": 700, "thorough": 60000}}],
+    "rule": ("one evaluation = one simulated run of the envelope world in OpenPGP mode: SimGPG signers with header strings of 1-70000 "
+             "bytes (including ones no real OpenPGP emits) and, in 60% of the runs, the real gpg binary (six ed25519 OpenPGP keys: the two "
+             "shipped test keys and four committed ones; faked system time = simulated clock) reached through the library's own GPG "
+             "signing path (dict and file variants); channel faults from the attack catalogue; direct verify_gpg_signature calls with "
+             "tweaked entries ('exactly when' against ledger + independent RFC 8032); exhaustive single-bit sweeps over signature, the "
+             "first 64 header bytes, the key and a 96-byte window of the payload; non-trivial = a fault fired and both outcomes were seen"),
+    "assumptions": [ASSUME_CRYPTO, ASSUME_SAMPLE, "securesystemslib is replaced by the harness's OpenPGP packet parser in front of the real "
+                    "gpg binary; if gpg is unusable the real-GnuPG leg is skipped with a note (SimGPG remains)",
+                    "zero-length other_headers cannot be expressed (the entry grammar rejects the empty hex string)"],
+    "components": {"real": REAL + ["GnuPG 2.2 binary (gpg --detach-sign, --export) as external signer process"],
+                   "stub": ["securesystemslib.gpg.functions (harness packet parser + subprocess)", "SimGPG", "SimFS", "SimStdout sink"]},
+    "must_probe": {"all": ["real_gpg_signature", "bit_sweep_flips", "vgs_valid", "vgs_invalid"]},
 }
